@@ -16,7 +16,7 @@ RULE = ('filter ASTs (has / not / six comparisons against bool, number, quantity
         'reference evaluator written from the Haystack filter semantics (DESIGN.md Appendix C): selected rows by identity '
         'and order, cut at limit; result carries version/metadata/columns; source grid unchanged; no exception. Exhaustive: '
         'all filters with <= 3 atoms over a 16-atom alphabet x 8 connective shapes against a grid holding every combination '
-        'of 10 x 10 x 5 tag valuations. Non-trivial = the filter selects a proper non-empty subset, or has >= 3 operands, or '
+        'of 13 x 13 x 5 tag valuations. Non-trivial = the filter selects a proper non-empty subset, or has >= 3 operands, or '
         'contains ->; distinct by (filter text, grid).')
 ASSUMPTIONS = ['row ids are plain strings and a Ref matches the row whose str(id) equals the Ref name (hszinc\'s documented '
                'convention in its tests)', 'Ref values compared with ref literals carry no display name; Ref equality is by name',
@@ -63,10 +63,10 @@ def value_candidates(lit):
     return out
 
 
-def build_grid(rows_spec):
+def build_grid(rows_spec, version='3.0'):
     """rows_spec: list of dict tag -> model value | 'ABSENT' | 'NONE' | 'MARKER'; ids id0.."""
     import hszinc
-    g = hszinc.Grid(version='3.0')
+    g = hszinc.Grid(version=version)
     g.metadata['gm'] = 'meta'
     tags = []
     for rs in rows_spec:
@@ -131,12 +131,13 @@ def check(case, grid=None, excl=frozenset()):
     key = excluded(ast, text, case['rows'], excl)
     if key:
         return ('excluded', key)
-    g = grid if grid is not None else build_grid(case['rows'])
+    g = grid if grid is not None else build_grid(case['rows'], case.get('version', '3.0'))
     rows = list(g)
     limit = case.get('limit', 0)
     want = fr.select(ast, rows, limit)
     shown = dict(case, text=text)
     before = model.grid_to_model(g) if grid is None else None
+    raw = model.raw_snapshot(g) if grid is None else None
     try:
         res = g.filter(text, limit) if limit else g.filter(text)
     except Exception as e:  # noqa
@@ -157,6 +158,8 @@ def check(case, grid=None, excl=frozenset()):
         raise Violation('result-header', shown, 'result does not carry version/metadata/columns')
     if before is not None:
         d = model.diff(before, model.grid_to_model(g))
+        if not d and model.raw_snapshot(g) != raw:
+            d = 'row dicts of the source grid were touched (keys added or values replaced)'
         if d:
             raise Violation('source-mutated', shown, d)
     return ('ok', len(want), len(rows), text, plan)
@@ -171,7 +174,7 @@ ATOMS = [['has', ['a']], ['not', ['a']], ['cmp', '==', ['a'], ['num', 5.0]], ['c
          ['cmp', '==', ['a'], ['num', 1.0]], ['cmp', '==', ['b'], ['bool', True]], ['cmp', '==', ['b'], ['qty', 5.0, 'kW']],
          ['cmp', '<=', ['a'], ['qty', 5.0, 'W']]]
 A_VALS = ['ABSENT', 'NONE', 'MARKER', ['num', 5.0], ['num', 4.0], ['num', 6.0], ['str', 'x'], ['bool', True], ['num', 1.0],
-          ['qty', 5.0, 'kW']]
+          ['qty', 5.0, 'kW'], ['num', 0.0], ['bool', False], ['str', '']]
 R_VALS = [['ref', 'id0', None], ['ref', 'id1', None], ['ref', 'nope', None], ['str', 'id0'], 'ABSENT']
 
 
@@ -258,7 +261,8 @@ def strategies(excl):
         for _ in range(nrows):
             rows.append(dict((t, draw(st.sampled_from(c))) for t, c in sorted(cand.items())))
         return {'ast': a, 'choices': draw(st.lists(st.integers(0, 11), max_size=30)), 'rows': rows,
-                'limit': draw(st.sampled_from([0, 0, 0, 1, 2, nrows]))}
+                'limit': draw(st.sampled_from([0, 0, 0, 1, 2, nrows])),
+                'version': draw(st.sampled_from(['3.0', '3.0', '2.0', '2.5', '3.0.0', '1.0', '4.0', '2']))}
     return cases()
 
 
@@ -276,6 +280,7 @@ def run(part, args, env):
         rows_spec = small_scope_rows()
         g = build_grid(rows_spec)
         before = model.grid_to_model(g)
+        raw0 = model.raw_snapshot(g)
         n = nt = 0
         for i, ast in enumerate(small_scope_filters()):
             if i % args['of'] != args['shard']:
@@ -299,8 +304,10 @@ def run(part, args, env):
             if n % 211 == 1:
                 acc.sample({'filter': r[3], 'selected': r[1], 'of': r[2]})
         d = model.diff(before, model.grid_to_model(g))
+        if not d and model.raw_snapshot(g) != raw0:
+            d = 'row dicts of the source grid were touched (keys added or values replaced)'
         if d:
-            acc.violation(Violation('source-mutated', {'rows': 'small-scope'}, d))
+            acc.violation(Violation('source-mutated', {'rows': 'small-scope', 'ast': ['has', ['a']], 'choices': [], 'limit': 0}, d))
         acc.bulk(n, nt, labels=('small-scope',))
         acc.exhaustive['filters with <= 3 atoms over 12 atoms x 8 shapes on the all-valuations grid (%d rows)' % len(rows_spec)] = bool(args['full'])
     else:
